@@ -22,7 +22,7 @@ class C06(Check):
     ASSUMPTIONS = ['reference layout transcribed from the docstrings of sdss_objid / sdss_specobjid',
                    'out-of-range components inside a vN_M_P string are not asserted to raise (DESIGN C06 D)']
     QUICK_SHARDS = 4
-    REQUIRED_COUNTERS = ('repeat_calls_same_objects', 'rejections_observed')
+    REQUIRED_COUNTERS = ('repeat_calls_same_objects', 'rejections_observed', 'length_mismatch_one', 'length_mismatch_plus1', 'length_mismatch_minus1')
 
     def setup(self):
         import pydl.pydlutils.sdss as S
@@ -240,8 +240,12 @@ class C06(Check):
             vals[case['bad']][case['pos'] % n] = case['badval']
             args = {f: (int(vals[f][0]) if conv == 'pyint' else np.array(vals[f], dtype=np.int64)) for f in OBJ_FIELDS}
         else:
-            args = {f: np.array(vals[f] * 2, dtype=np.int64) for f in OBJ_FIELDS}
-            args[case['bad']] = np.array(vals[case['bad']] * 2 + [base[case['bad']]], dtype=np.int64)
+            N = 2 + case['pos'] + n
+            lk = ['plus1', 'one', 'minus1', 'double', 'one'][(case['badval'] + case['pos']) % 5]
+            m = {'plus1': N + 1, 'minus1': N - 1, 'double': 2 * N, 'one': 1}[lk]
+            args = {f: np.array([base[f]] * N, dtype=np.int64) for f in OBJ_FIELDS}
+            args[case['bad']] = np.array([base[case['bad']]] * m, dtype=np.int64)
+            out.count('length_mismatch_' + lk)
         try:
             r = S.sdss_objid(args['run'], args['camcol'], args['field'], args['objnum'], rerun=args['rerun'],
                              skyversion=args['skyversion'], firstfield=args['firstfield'])
@@ -406,9 +410,17 @@ class C06(Check):
             args = {f: (int(vals[f][0]) if conv == 'pyint' else np.array(vals[f], dtype=np.int64)) for f in SPEC_FIELDS}
             kw[case['lineform']] = args['line']
         elif case['mode'] == 'length':
-            args = {f: np.array(vals[f] * 2, dtype=np.int64) for f in SPEC_FIELDS}
-            args[case['bad']] = np.array(vals[case['bad']] * 2 + [base[case['bad']]], dtype=np.int64)
+            # N >= 2 for every field but one, whose array is one longer, one shorter, twice as long, or has exactly one
+            # element (a length-1 array is not a scalar: nothing says it applies to all spectra)
+            N = 2 + case['pos'] + n
+            lk = ['plus1', 'one', 'minus1', 'double', 'one'][(case['badval'] + case['pos']) % 5]
+            m = {'plus1': N + 1, 'minus1': N - 1, 'double': 2 * N, 'one': 1}[lk]
+            args = {f: np.array([base[f]] * N, dtype=np.int64) for f in SPEC_FIELDS}
+            args[case['bad']] = np.array([base[case['bad']]] * m, dtype=np.int64)
+            if case['bad'] == 'run2d' and case['badval'] % 2:
+                args['run2d'] = np.array([self._run2d_str(base['run2d'])] * m)
             kw[case['lineform']] = args['line']
+            out.count('length_mismatch_' + lk)
         else:
             args = {f: (int(vals[f][0]) if conv == 'pyint' else np.array(vals[f], dtype=np.int64)) for f in SPEC_FIELDS}
             kw = {'line': args['line'], 'index': args['line']}
